@@ -121,6 +121,11 @@ def locations_any():
 def peak_spec(draw, mode, kinds=PEAKS, prefix=None):
     kind = draw(st.sampled_from(kinds))
     amplitude = draw(_SIGNED_MAG)
+    if mode == "any":
+        # "for all parameter values": a peak of amplitude exactly +-0 is the zero function *in the unit
+        # of y* (seeded/C16-s9: an early return for zero amplitude forgot to divide the unit by x)
+        amplitude = draw(st.integers(0, 11).flatmap(
+            lambda k: st.sampled_from([0.0, -0.0]) if k == 0 else st.just(amplitude)))
     scale = draw(_SCALES)
     if mode in ("near", "near100"):
         r = draw(_LOC_REL if mode == "near" else _LOC_REL100)
